@@ -113,17 +113,10 @@ Fixpoint events_eqb (a b : list event) : bool :=
   | _, _ => false
   end.
 
-(* ---- the environment facts the idempotence theorem assumes, checked on the URNs of a case ------------ *)
-Definition urn_facts_hold (E : menv) (urns : list N) (chans : list (option N)) : bool :=
-  forallb (fun u =>
-    N.eqb (urn_identity E (urn_normalize E (urn_normalize E u))) (urn_identity E (urn_normalize E u))
-    && forallb (fun ch =>
-         N.eqb (urn_set_channel E ch (urn_set_channel E ch u)) (urn_set_channel E ch u)) chans) urns.
-
 (* ---- a directly applied modifier, applied twice ------------------------------------------------------ *)
 Record mcase := {
   k_tables : etables; k_contact : contact; k_mod : modifier; k_fresh : N;
-  k_urns : list N; k_chans : list (option N);          (* for urn_facts_hold *)
+  k_urns : list N; k_chans : list (option N);          (* every URN / channel the tables know (informative) *)
   (* observed on the implementation: first application *)
   k_o_contact : contact; k_o_events : list event; k_o_modified : bool;
   (* second application of the same modifier to the resulting contact *)
@@ -136,7 +129,7 @@ Definition check_m (k : mcase) : bool :=
   let '(c2, evs2, m2) := apply E (k_fresh k + 1) (k_mod k) c1 in
   contact_obs_eqb c1 (k_o_contact k) && events_eqb evs1 (k_o_events k) && Bool.eqb m1 (k_o_modified k)
   && contact_obs_eqb c2 (k_o_contact2 k) && events_eqb evs2 (k_o_events2 k) && Bool.eqb m2 (k_o_modified2 k)
-  && urn_facts_hold E (k_urns k) (k_chans k).
+  && mod_env_ok E (k_mod k) (k_contact k).
 
 (* ---- a sprint: the contact-writing steps the engine performed, in order ---------------------------- *)
 Record scase := {
